@@ -126,9 +126,12 @@ def run_plans(rep, crate, cfg):
             cnt = N(gens[0]["args"][0])
             dnf = dec.conds_of(ls, gens[0]["block"])
             # regenerated whenever there is no cached plan or its count differs from this block's count
-            differs = [c for cj in dnf for c, v in cj if c[0] == "op" and c[1] in ("Ne", "Eq") and cnt in (c[2], c[3])]
-            isnone = [c for cj in dnf for c, v in cj if c[0] == "call" and c[1].endswith("is_none")]
-            ok = bool(differs) and bool(isnone) and len(dnf) == 2
+            od = dec.opt_dnf(dnf)
+            none_arm = [cj for cj in od if any(c[0] == "is-some" and v is False for c, v in cj) and
+                        not any(c[0] == "op" for c, v in cj)]
+            diff_arm = [cj for cj in od if any(c[0] == "op" and ((c[1] == "Ne" and v) or (c[1] == "Eq" and not v)) and cnt in (c[2], c[3])
+                                               for c, v in cj) and not any(c[0] == "is-some" and v is False for c, v in cj)]
+            ok = len(od) == 2 and len(none_arm) == 1 and len(diff_arm) == 1
             # block data handed to the encoder is the data the count was computed from
             data = N(wps[0]["args"][2])
             ok = ok and terms.find(("call", V("l", lambda x: isinstance(x, str) and x.endswith("::len")), (V("d"),)), cnt) is not None
